@@ -27,7 +27,11 @@ def run_property(prop, tier, root=None, quiet=False):
         except ModuleNotFoundError:
             print("ANALYSIS-ERROR property=%s no rules implemented" % prop)
             return 2
-        mod.run(chk, ctx)
+        try:
+            mod.run(chk, ctx)
+        except AnalysisError as e:
+            # an anchor of a clause rule vanished: no verdict from the remaining clause rules (exit 2 unless something else is a violation)
+            chk.floor_failures.append(str(e))
         from sa.rules import reviewed
         reviewed.run(chk, ctx, prop)
         if tier == "thorough":
